@@ -22,7 +22,7 @@ ENV.pop("RUSTFLAGS", None)
 
 TIERS = {
     "quick": {"runs": 60_000, "huge": False, "real_procs": 8, "real_derives": 60},
-    "thorough": {"runs": 4_000_000, "huge": True, "real_procs": 128, "real_derives": 400},
+    "thorough": {"runs": 2_000_000, "huge": True, "real_procs": 128, "real_derives": 400},
 }
 STRATS = ["sip", "const", "low_bits", "identity", "bit_reverse"]
 
